@@ -93,7 +93,14 @@ func matchNamedMethod(pkgPath, typeName, method string) Matcher {
 		} else {
 			fn = m
 		}
-		if fn == nil || fn.Name() != method {
+		if fn == nil {
+			return false
+		}
+		name := fn.Name()
+		if f != nil {
+			name = publicName(f)
+		}
+		if name != method {
 			return false
 		}
 		sig, _ := fn.Type().(*types.Signature)
